@@ -317,7 +317,7 @@ Proof.
   - intros y t eb Hy. destruct (crashed t); [exact Hy|]. destruct (dist_eq _ _ _ _ _ _ _) as [[cs' br]|]; ext_go.
   - apply e_ballots, e_residual, e_cands, e_residual, zero_he_ext; exact H.
 Qed.
-Lemma update_kfs_ext x s : Ext A x s -> Ext A x (update_kfs A s).
+Lemma update_kfs_ext cl x s : Ext A x s -> Ext A x (update_kfs A cl s).
 Proof. intros H. unfold update_kfs. ext_go. Qed.
 Lemma meek_iter_head_ext x s : Ext A x s -> Ext A x (meek_iter_head A cfg s).
 Proof.
